@@ -79,7 +79,7 @@ def run_history(ctx, rng, steps, stream, ops_fixed=None, kinds_fixed=None, parse
                     break
         if bad:
             ctx.violation(f"{op}: children of {bad[0]} are {bad[1]}, documented effect gives {bad[2]}",
-                          case={"kinds": kinds, "ops": ops, "parsed": bool(parsed), "before": before},
+                          case={"kinds": kinds, "ops": ops, "parsed": bool(parsed), "before": before, "twin": getattr(w, "twin_choices", None)},
                           expected=bad[2], observed=bad[1], stream=stream)
             break
     for k, v in stats.items():
@@ -87,7 +87,7 @@ def run_history(ctx, rng, steps, stream, ops_fixed=None, kinds_fixed=None, parse
         if k in ("arg:same-parent", "arg:elsewhere", "arg:soup", "arg:repeat") and v:
             nontrivial = True
     line = f"c01 run {kinds} {';'.join(ops) if ops else '-'} ptr"
-    return line, outcomes, shapes, {"kinds": kinds, "ops": ops, "parsed": bool(parsed)}, nontrivial
+    return line, outcomes, shapes, {"kinds": kinds, "ops": ops, "parsed": bool(parsed), "twin": getattr(w, "twin_choices", None)}, nontrivial
 
 
 def compare_model(ctx, reply, outcomes, shapes, case, stream):
@@ -206,7 +206,7 @@ def replay(path):
     if "kinds" not in c:
         print(json.dumps(v, indent=1)[:3000])
         return 1
-    w = heapsim.World(c["kinds"])
+    w = heapsim.World(c["kinds"], twin_choices=c.get("twin"))
     spec = heapsim.Spec(c["kinds"])
     for i, op in enumerate(c["ops"]):
         st = w.apply(op)
